@@ -245,6 +245,9 @@ fn run_generate(
         println!("🔄 Changes detected, regenerating bindings");
     }
 
+    // The previous cache record stops being valid as soon as files are rewritten
+    GenerationCache::invalidate(&config.output_path);
+
     // Generate bindings
     reporter.start_step("Generating TypeScript bindings");
     let validation = match config.validation_library.as_str() {
